@@ -71,6 +71,18 @@ def tryfrom_table(fn):
     return table, default_err
 
 
+def has_lz4(fn):
+    """does fn (de)compress at all?  Without the lz4 feature lsm_tree::CompressionType has the single variant None and
+    a `match compression {..}` leaves no switch in MIR."""
+    return any("lz4_flex" in A.cname(t) or "lz4_flex" in (t.get("callee") or "") for _, t in fn.calls())
+
+
+def no_compression(ctx, fn):
+    """the crate is built without its lz4 feature (cargo's --cfg feature set, recorded by the driver) and fn indeed
+    neither compresses nor decompresses"""
+    return "lz4" not in ctx.F.features and not has_lz4(fn)
+
+
 def run(ctx):
     F = ctx.F
     enc = ctx.fn(ENC, "R-C15.1")
@@ -162,7 +174,8 @@ def run(ctx):
                 if g:
                     conds = A.edge_conditions(dec, b)
                     arm_ok = any(t.k == "discr" and g[0] in labels and any(x.k == "call" and "Decode" in x.a[0] for x in A.walk(t)) for _, t, labels in conds)
-                    arm_ok = arm_ok and c[0] in ("Eq", "Ne")
+                    # built without lz4, CompressionType has the single variant None: there is no arm to be in
+                    arm_ok = (arm_ok or no_compression(ctx, dec)) and c[0] in ("Eq", "Ne")
                 ctx.ob("R-C15.6", dec, "header-relation-%d-%d" % tuple(sorted(pair)), bool(g) and arm_ok,
                        "decoder tests %s between header fields %s: %s" % (c[0], sorted(pair), g[1]) if (g and arm_ok)
                        else "decoder rejects records based on a relation (%s) between header fields %s that the encoder does not guarantee%s: valid records (e.g. incompressible values whose lz4 output is longer than the input) would be refused and the journal truncated there" % (
@@ -205,6 +218,8 @@ def run(ctx):
         if sw is not None:
             term, _ = A.switch_info(dec, sw)
             ok = term.k == "discr" and any(x.k == "call" and "coding::Decode" in x.a[0] or (x.k == "call" and x.a[0].endswith("::decode_from")) for x in A.walk(term.a))
+        if sw is None and no_compression(ctx, dec):
+            ok = True  # no compression compiled in (CompressionType = {None}): nothing is decompressed, nothing to switch on
         ctx.ob("R-C15.3", dec, "decompress-by-decoded-tag", ok, "the decompression branch switches on the CompressionType decoded from the record" if ok else "the decompression branch does not switch on the decoded compression tag")
     if smi:
         og = ctx.og(smi)
@@ -215,6 +230,10 @@ def run(ctx):
             recv = og.of_operand(smi.term(e[0])["args"][0])
             term, _ = A.switch_info(smi, sw)
             ok = recv.k == "param" and recv.a[0] == 6 and term.k == "discr" and term.a.k == "param" and term.a.a[0] == 6
+        if e and sw is None and no_compression(ctx, smi):
+            # no compression compiled in: the value is stored as given and the only representable tag is written
+            recv = og.of_operand(smi.term(e[0])["args"][0])
+            ok = recv.k == "param" and recv.a[0] == 6
         ctx.ob("R-C15.3", smi, "encodes-the-compression-it-applies", ok, "the compression tag written is the `compression` parameter the value is compressed with" if ok else "the compression tag written differs from the compression actually applied")
     for fid in (R.WRITER + "::write_raw", R.WRITER + "::write_batch"):
         fn = ctx.fn(fid, "R-C15.3")
